@@ -547,7 +547,7 @@ def parse_equation_terms(equation: str) -> List[Term]:
     # contribute no equation at all, or the same equation several times
     lhs_variables = [x for x in lhs_terms if x.type == Type.ENDOGENOUS]
     if len(lhs_variables) != 1 and not any(
-        x.type in (Type.KEYWORD, Type.VERBATIM) for x in lhs_terms
+        x.type == Type.KEYWORD for x in lhs_terms  # Reported separately, below
     ):
         raise ParserError(
             f'Expected exactly one variable on the left-hand side '
